@@ -419,3 +419,14 @@ def run(ctx):
     ]
     ctx.extra["rule"] = ("a case is distinct by (operation, octets of the header/member/span context) for the grammar machine "
                          "and by (initial list, edit sequence) for the edit machine")
+    # X02: inductive proof (Apalache, symbolic constants) of the parameterised core E this spec generalises -- thorough tier,
+    # evidence only: nothing in here can change the verdict or the exit code of this check (see checks/inductive.py)
+    if thorough:
+        try:
+            import importlib.util as _ilu
+            _s = _ilu.spec_from_file_location("verif_inductive", os.path.join(os.path.dirname(os.path.abspath(__file__)), "inductive.py"))
+            _m = _ilu.module_from_spec(_s)
+            _s.loader.exec_module(_m)
+            ctx.extra["inductive"] = _m.run_inductive(ctx, ["E"], budget_s=600)
+        except Exception as _e:  # never a verdict
+            ctx.extra["inductive"] = {"_error": repr(_e)}
